@@ -55,10 +55,17 @@ func main() {
 			vt.Fatal("unknown mode %q", *mode)
 		}
 	}
-	if *mode == "honest" {
-		rng := vt.Rand(77)
-		for i := 0; i < *nrand; i++ {
+	rng := vt.Rand(77)
+	for i := 0; i < *nrand; i++ {
+		switch *mode {
+		case "honest":
 			honest(w, dp.Random(rng, 5+rng.Intn(8)), 5, 60, st)
+		case "tamper":
+			tamper(w, dp.Random(rng, 5+rng.Intn(5)), 25, st)
+		case "fault":
+			fault(w, dp.Random(rng, 5+rng.Intn(5)), st)
+		case "alert":
+			alert(w, dp.Random(rng, 5+rng.Intn(5)), st)
 		}
 	}
 	fmt.Fprintf(os.Stderr, "dp: journeys=%d events=%d\n", st.journeys, w.N)
@@ -247,6 +254,8 @@ func tamper(w *vt.Writer, t *dp.Topo, maxJ int, st *stats) {
 		if t.Name != "T1" {
 			stride = 16
 		}
+	} else if t.Name[0] == 'R' {
+		stride = 7
 	}
 	k := 0
 	for src := range t.ASes {
@@ -348,6 +357,8 @@ func fault(w *vt.Writer, t *dp.Topo, st *stats) {
 		if t.Name == "T1" {
 			stride = 4
 		}
+	} else if t.Name[0] == 'R' {
+		stride = 5
 	}
 	k := 0
 	run := func(n *dp.Net, pr pathRec, desc map[string]any, mut func([]byte) []byte) {
@@ -431,6 +442,8 @@ func alert(w *vt.Writer, t *dp.Topo, st *stats) {
 		if t.Name == "T1" {
 			stride = 3
 		}
+	} else if t.Name[0] == 'R' {
+		stride = 4
 	}
 	k := 0
 	for _, pr := range allPaths(t, c) {
